@@ -29,7 +29,7 @@ func init() {
 		ID:    "C04",
 		Level: "fault_enumeration",
 		Rule: "one wire mutation per execution of the real client+server exchange (two sessions on separate underlays, three writes per direction): position = every byte of the first M segments / datagrams of each direction (TCP: M=4 quick, 8 thorough, both connections, all kinds at every byte; UDP quick: M=3 of one session, a bit flip at every byte and the other kinds at every 6th byte; UDP thorough: M=8, all kinds at every byte), labelled by the reference decoder (nonce, encrypted metadata, metadata tag, padding, payload body, payload tag); " +
-			"kind = flip bit 0, flip bit 7, set 00, insert a byte before, delete, truncate here, swap with the next segment, replace by the same-index segment of the other session, replace by the same-index segment of the opposite direction, UDP: deliver the datagram again 1 ms / 12 ms / 40 ms / 300 ms / 2 s later; both transports; patterns {padding max 4, low entropy 40 with rotation}. Oracle: TCP - everything read is a prefix of what was written (the connection may end early); UDP - the stream completes intact within the horizon. distinct = distinct (scenario, position, kind)",
+			"kind = flip bit 0, flip bit 7, set 00, insert a byte before, delete, truncate here, swap with the next segment, replace by the same-index segment of the other session, replace by the same-index segment of the opposite direction, UDP: deliver the datagram again 1 ms / 12 ms / 40 ms / 300 ms / 2 s later, TCP: remove the whole segment, send it twice, append a copy of the connection's first segment; both transports; patterns {padding max 4, low entropy 40 with rotation}. Oracle: TCP - everything read is a prefix of what was written (the connection may end early); UDP - the stream completes intact within the horizon. distinct = distinct (scenario, position, kind)",
 		Assumptions: []string{
 			"payloads are 8..40 bytes and padding maxima 4 in the quick tier so that 'every byte position' stays enumerable; thorough adds MTU-size payloads and padding 255",
 			"the mutated byte stream / datagram is what the receiving endpoint's socket returns; everything else is delivered unchanged",
@@ -154,6 +154,12 @@ func run(sc scen, m *mut, base *recording, ctl *explore.Ctl) (explore.Result, *o
 						}
 						s1 = int64(start + segLen + len(segs[m.seg+1]))
 						repl = append(append([]byte(nil), segs[m.seg+1]...), segs[m.seg]...)
+					case "drop-segment":
+						repl = []byte{}
+					case "dup-segment":
+						repl = append(append([]byte(nil), segs[m.seg]...), segs[m.seg]...)
+					case "replay-first-segment":
+						repl = append(append([]byte(nil), segs[m.seg]...), segs[0]...)
 					case "splice-other-session":
 						o := base.segs[key(m.dir, 1-m.conn)]
 						if m.seg >= len(o) {
@@ -480,6 +486,10 @@ func labelBytes(ex *world.Exec, udp bool) map[string][]string {
 var kinds = []string{"flip0", "flip7", "zero", "insert", "delete", "truncate"}
 var segKinds = []string{"swap-next", "splice-other-session", "splice-opposite-direction"}
 
+// TCP only: a whole segment removed from the stream, present twice, or followed by a copy of the
+// connection's first segment
+var tcpSegKinds = []string{"drop-segment", "dup-segment", "replay-first-segment"}
+
 // UDP only: the authentic datagram is delivered and delivered again after the given delay
 // (before the next one, after the next few, after the exchange moved on, after a retransmission timeout)
 var udpSegKinds = []string{"replay-after-1ms", "replay-after-12ms", "replay-after-40ms", "replay-after-300ms", "replay-after-2s"}
@@ -550,6 +560,8 @@ func units(tier string) []runner.Unit {
 							sk := segKinds
 							if sc.udp {
 								sk = append(append([]string(nil), segKinds...), udpSegKinds...)
+							} else {
+								sk = append(append([]string(nil), segKinds...), tcpSegKinds...)
 							}
 							for _, kind := range sk {
 								i++
